@@ -33,7 +33,7 @@ def run(ctx):
     ctx.gate = core.proof_gate("C19")
     for _ in ctx.gate["theorems"]:
         ctx.oblige(True)
-    exe = core.build_harness("release")
+    exe = core.build_harness("c19")
     mexe = core.build_model("c19")
     rng = ctx.rng
     cases = []
@@ -53,7 +53,7 @@ def run(ctx):
         for ch in chunkings(rng, t, 1)[1:]:
             cases.append(ch)
     lines = [line_of(c) for c in cases]
-    impl = core.run_lines([exe, "c19"], lines)
+    impl = core.run_lines([exe], lines)
     model = core.run_lines([mexe], lines)
     ndiff = 0
     for c, l, a, b in zip(cases, lines, impl, model):
@@ -72,7 +72,7 @@ def run(ctx):
                            "differences_impl_vs_model": d,
                            "impl": a if len(d) == 0 else None,
                            "authority": "C19_line_num_spec, C19_line_col_spec, C19_span_lines_spec (model = spec for all inputs)",
-                           "replay_cmd": "echo '%s' | .work/target/release/gvh c19" % l})
+                           "replay_cmd": "echo '%s' | .work/target/release/c19" % l})
     ctx.oblige(ndiff == 0, "correspondence")
     ctx.coverage["rule"] = ("all texts over {a,é,♠,\\n,\\r} up to length %d with the whole-text feed and %d random chunking(s), "
                             "plus random longer texts incl. 4-byte chars; every byte offset (line), every char boundary "
